@@ -15,7 +15,7 @@ MSB0_BUILD = ('slice', 'stepslice', 'from_mutated')
 
 def describe(tier):
     q = tier == 'quick'
-    return dict(bounds=dict(contents='all contents of length <= %d; boundary patterns of %s bits' % (5 if q else 8, '8,15,16,17,24,33,64,65' if q else '8..129, 255..1025'),
+    return dict(bounds=dict(contents='all contents of length <= %d; boundary patterns of %s bits' % (5 if q else 8, '8,15,16,17,24,33,64,65,2001' if q else '8..129, 255..1025, 2000, 2001, 3601'),
                             routes=list(routes.ROUTES), classes=list(CLASSES), lsb0=[False, True],
                             battery='%d pure + %d stream + %d mutating events (bsmc/api.py), arguments include out-of-range values' % (len(api.PURE), len(api.STREAM), len(api.MUT))),
                 rule='every (class, content, route, mode, event) combination executed once on a fresh object and compared with the twin; non-trivial = '
@@ -27,9 +27,9 @@ def describe(tier):
 def shards(tier, seed):
     q = tier == 'quick'
     conts = list(families.all_bits(5 if q else 8))
-    Ls = (8, 15, 16, 17, 24, 33, 64, 65) if q else (8, 15, 16, 17, 24, 31, 32, 33, 63, 64, 65, 127, 128, 129, 255, 256, 257, 1023, 1024, 1025)
+    Ls = (8, 15, 16, 17, 24, 33, 64, 65, 2001) if q else (8, 15, 16, 17, 24, 31, 32, 33, 63, 64, 65, 127, 128, 129, 255, 256, 257, 1023, 1024, 1025, 2000, 2001, 3601)
     for L in Ls:
-        conts += families.edge(L, seed, full=False)[2:(5 if q else 7)]
+        conts += families.edge(L, seed, full=False)[2:((3 if L >= 2000 else 5) if q else 7)]
     out = []
     for lsb0 in (False, True):
         for part in families.chunk(conts, 24 if q else 48):
